@@ -267,7 +267,8 @@ def finish(prop, tier, seed, level, merged, t0, extra_cov=None, min_evals=1, rep
         else:
             viol_new.append(v)
     rc = 0
-    os.makedirs(os.path.join(VERIF, "replays", prop), exist_ok=True)
+    rpdir = os.environ.get("VERIF_REPLAY_DIR") or os.path.join(VERIF, "replays")
+    os.makedirs(os.path.join(rpdir, prop), exist_ok=True)
     for key, v in sorted(viol_known.items()):
         print(f"KNOWN-FINDING: property={prop} key={key} {known_keys[key].get('description','')}")
     for key, k in sorted(known_keys.items()):
@@ -279,7 +280,7 @@ def finish(prop, tier, seed, level, merged, t0, extra_cov=None, min_evals=1, rep
             continue
         seen_keys.add(v.get("key"))
         h = hashlib.sha256(json.dumps(v, sort_keys=True, default=str).encode()).hexdigest()[:12]
-        path = os.path.join(VERIF, "replays", prop, f"{h}.json")
+        path = os.path.join(rpdir, prop, f"{h}.json")
         with open(path, "w") as f:
             json.dump({"property": prop, "seed": seed, "tier": tier, **v}, f, indent=1, default=str)
         print(f"VIOLATION property={prop} replay={path}")
@@ -306,9 +307,10 @@ def finish(prop, tier, seed, level, merged, t0, extra_cov=None, min_evals=1, rep
         "property_id": prop, "tier": tier, "seed": int(seed), "level": level, "coverage": cov,
         "assumptions": merged["assumptions"], "wall_s": round(time.time() - t0, 2), "violations": len(seen_keys),
     }
-    os.makedirs(os.path.join(VERIF, "evidence"), exist_ok=True)
+    evdir = os.environ.get("VERIF_EVIDENCE_DIR") or os.path.join(VERIF, "evidence")
+    os.makedirs(evdir, exist_ok=True)
     evname = f"{prop}.replay.json" if replay else f"{prop}.json"
-    with open(os.path.join(VERIF, "evidence", evname), "w") as f:
+    with open(os.path.join(evdir, evname), "w") as f:
         json.dump(ev, f, indent=1, default=str)
     if replay:
         if rc == 0:
